@@ -40,26 +40,38 @@ func (s *AggregateSet) Merge(query *Query, set *AggregateSet) error {
 	//dlog.Common.Trace("Merge", set)
 	for _, sc := range query.Select {
 		storage := sc.FieldStorage
+		// Only merge values the other set actually has, a missing value is not a zero
+		// (it would be taken for the minimum, or overwrite the last string).
+		fValue, hasFValue := set.FValues[storage]
+		sValue, hasSValue := set.SValues[storage]
 		switch sc.Operation {
 		case Count:
 			fallthrough
 		case Sum:
 			fallthrough
 		case Avg:
-			value := set.FValues[storage]
-			s.addFloat(storage, value)
+			if hasFValue {
+				s.addFloat(storage, fValue)
+			}
 		case Min:
-			value := set.FValues[storage]
-			s.addFloatMin(storage, value)
+			if hasFValue {
+				s.addFloatMin(storage, fValue)
+			}
 		case Max:
-			value := set.FValues[storage]
-			s.addFloatMax(storage, value)
+			if hasFValue {
+				s.addFloatMax(storage, fValue)
+			}
 		case Last:
-			value := set.SValues[storage]
-			s.setString(storage, value)
+			if hasSValue {
+				s.setString(storage, sValue)
+			}
 		case Len:
-			s.setString(storage, set.SValues[storage])
-			s.setFloat(storage, set.FValues[storage])
+			if hasSValue {
+				s.setString(storage, sValue)
+			}
+			if hasFValue {
+				s.setFloat(storage, fValue)
+			}
 		default:
 			return fmt.Errorf("Unknown aggregation method '%v'", sc.Operation)
 		}
